@@ -5,6 +5,7 @@ package main
 import (
 	"go/ast"
 	"go/constant"
+	"go/token"
 	"bufio"
 	"bytes"
 	"fmt"
@@ -142,6 +143,7 @@ type headInfo struct {
 	hasDec bool
 	ri     *ssa.Alloc
 	state  *State // head state after havoc+assume (before head instructions)
+	autoRecv ssa.Value // receiver of the Dispenser.Next*-style call that drives this loop (automatic variant), or nil
 }
 
 func (g *Gen) run() {
@@ -207,6 +209,19 @@ func (g *Gen) run() {
 			if s, ok := in.(*ssa.Store); ok {
 				if al, ok := s.Addr.(*ssa.Alloc); ok && al.Comment == "rangeindex" {
 					hi.ri = al
+				}
+			}
+		}
+		if autoDispenserVariants {
+			if iff, ok := h.Instrs[len(h.Instrs)-1].(*ssa.If); ok {
+				cond := iff.Cond
+				if u, ok := cond.(*ssa.UnOp); ok && u.Op == token.NOT {
+					cond = u.X
+				}
+				if call, ok := cond.(*ssa.Call); ok && call.Block() == h {
+					if fn, ok := call.Call.Value.(*ssa.Function); ok && dispenserDrivers[fn.String()] && len(call.Call.Args) > 0 {
+						hi.autoRecv = call.Call.Args[0]
+					}
 				}
 			}
 		}
@@ -354,6 +369,13 @@ func (g *Gen) run() {
 					}
 				} else if isSlice(prm.Type()) {
 					g.w.assume(fmt.Sprintf("(or (= (sbase %s) 0) (select %s (sbase %s)))", pv.S, alloc0.S, pv.S))
+				}
+			}
+			if assumeNonNilParams && g.ctr == nil {
+				for _, prm := range f.Params {
+					if _, isPtr := prm.Type().Underlying().(*types.Pointer); isPtr {
+						g.w.assume(fmt.Sprintf("(not (= %s 0))", g.val(prm, st).S))
+					}
 				}
 			}
 			for gname := range ghostInts {
@@ -607,6 +629,15 @@ func (g *Gen) run() {
 			if ls, ts := frameInvs(bst); len(ls) > 0 {
 				for i := range ls {
 					g.addObNoAssume("inv_back", fmt.Sprintf("loop%d_preserved/%s", hi.ord, ls[i]), pos, bst, ts[i])
+				}
+			}
+			if hi.autoRecv != nil && !hi.hasDec {
+				if recv, ok := g.vals[hi.autoRecv]; ok {
+					v0, ok0 := g.dispenserMeasure(recv, hi.state)
+					v1, ok1 := g.dispenserMeasure(recv, bst)
+					if ok0 && ok1 {
+						g.addObNoAssume("dec", fmt.Sprintf("loop%d_decreases/auto_dispenser", hi.ord), pos, bst, fmt.Sprintf("(and (>= %s 0) (< %s %s))", v0, v1, v0))
+					}
 				}
 			}
 			if hi.hasDec {
@@ -899,6 +930,43 @@ func (g *Gen) mergePreds(b *ssa.BasicBlock, preds []*ssa.BasicBlock, outState ma
 		}
 	}
 	return st
+}
+
+// autoDispenserVariants (unit attribute dispenser_variants=on): a loop whose condition is a call of one of the token-advancing
+// Dispenser methods gets the variant len(d.tokens) - d.cursor automatically ("the loops a directive owns terminate").
+var autoDispenserVariants = false
+
+var dispenserDrivers = map[string]bool{
+	"(*github.com/tmpim/casket/casketfile.Dispenser).Next":             true,
+	"(*github.com/tmpim/casket/casketfile.Dispenser).NextArg":          true,
+	"(*github.com/tmpim/casket/casketfile.Dispenser).NextLine":         true,
+	"(*github.com/tmpim/casket/casketfile.Dispenser).NextBlock":        true,
+	"(*github.com/tmpim/casket/casketfile.Dispenser).NextBlockNesting": true,
+}
+
+// dispenserMeasure is len(d.tokens) - d.cursor for the Dispenser at ref in state st.
+func (g *Gen) dispenserMeasure(ref Term, st *State) (string, bool) {
+	var tok, cur string
+	for k, h := range st.heap {
+		ts, i, ok := fldParts(k)
+		if !ok || ts != "github.com/tmpim/casket/casketfile.Dispenser" {
+			continue
+		}
+		stt := structRegistry[ts]
+		if stt == nil || i >= stt.NumFields() {
+			continue
+		}
+		switch stt.Field(i).Name() {
+		case "tokens":
+			tok = h.S
+		case "cursor":
+			cur = h.S
+		}
+	}
+	if tok == "" || cur == "" {
+		return "", false
+	}
+	return fmt.Sprintf("(- (slen (select %s %s)) (select %s %s))", tok, ref.S, cur, ref.S), true
 }
 
 type result struct {
